@@ -77,7 +77,7 @@ func c14Endpoint(pkg *types.Package, tag string) (httpapi.Endpoint, []c14Query, 
 		}
 		nv := vfChoice(tag+"values", vfParam("C14.values", 1)+1)
 		for i := 0; i < nv; i++ {
-			v := fmt.Sprint("v", i) + c14Name(narrow, fmt.Sprint(tag, "value", i))
+			v := c14Name(narrow, fmt.Sprint(tag, "value", i)) + fmt.Sprint("v", i)
 			for _, o := range a.Contract.InputForm.ValueNames {
 				vfAssume(o != v)
 			}
@@ -103,7 +103,7 @@ func c14Endpoint(pkg *types.Package, tag string) (httpapi.Endpoint, []c14Query, 
 	var qs []c14Query
 	nq := vfChoice(tag+"queries", vfParam("C14.queries", 1)+1)
 	for i := 0; i < nq; i++ {
-		q := c14Query{name: fmt.Sprint("q", i) + c14Name(narrow, fmt.Sprint(tag, "query", i)), kind: vfChoice(fmt.Sprint(tag, "qkind", i), 7)}
+		q := c14Query{name: c14Name(narrow, fmt.Sprint(tag, "query", i)) + fmt.Sprint("q", i), kind: vfChoice(fmt.Sprint(tag, "qkind", i), 7)}
 		if narrow {
 			vfAssume(q.kind == 0 || q.kind == 3 || q.kind == 4)
 		}
@@ -200,6 +200,24 @@ func HC14_method() {
 		okSig = okSig && strings.Contains(sig, "formValue: ")
 	}
 	vfAssert(okSig, "C14/every-parameter-the-body-uses-is-declared")
+	// the keys of the object types of the signature are quoted, or are identifiers (a name may start with a digit)
+	okKeys := true
+	var keyNames []string
+	for _, q := range qs {
+		keyNames = append(keyNames, q.name)
+	}
+	if !hasBody {
+		keyNames = append(keyNames, c.InputForm.ValueNames...)
+	}
+	for _, name := range keyNames {
+		if hasBody {
+			break // the signature names the body type, not the parameters
+		}
+		quoted := strings.Contains(sig, fmt.Sprintf("%q: ", name))
+		bare := vfAnd(strings.Contains(sig, name+": "), vfNot(vfAnd(name[0] >= '0', name[0] <= '9')))
+		okKeys = vfAnd(okKeys, vfOr(quoted, bare))
+	}
+	vfAssert(okKeys, "C14/signature-keys-are-quoted-or-identifiers")
 	vfKnown("C14/json-body-and-query-parameters-share-the-params-argument", hasBody && len(qs) > 0)
 	vfAssert(!(hasBody && len(qs) > 0) || strings.Count(sig, "params: ") >= 2 || strings.Contains(sig, "query"), "C14/json-body-and-query-parameters-are-distinct-arguments")
 }
